@@ -108,7 +108,7 @@ def run_case(case, ctx):
                                   dict(sig, failure="previous-metadata-lost"))
         p = sc.bystander_problem(store, common.alpha(d, cfg), where + f" (outcome {oc})")
         if p:
-            ctx.violation("fault-harmed-bystander", f"{p}; scenario {sc.summary()}", dict(sig, failure="bystander"))
+            ctx.violation("fault-harmed-bystander", f"{p[1]}; scenario {sc.summary()}", dict(sig, failure="bystander", harm=p[0]))
         ctx.classify("outcome=" + ("ok" if is_ok(out) else "raised"))
         ctx.classify("mode=" + mode)
         ctx.classify("site=" + ev.kind)
